@@ -147,6 +147,7 @@ func (c *Ctx) RunSym(job SymJob) *gosym.Report {
 	if job.Tweak != nil {
 		job.Tweak(&cfg)
 	}
+	vlog("start %s", job.Name)
 	rep := job.Eng.Explore(fn, Ints(job.Args...), job.Setup, &cfg)
 	if os.Getenv("VERIF_VERBOSE") != "" {
 		fmt.Printf("  job %-50s paths=%-6d wall=%-8v solver=%-8v steps=%d status=%v\n", job.Name, rep.Paths, rep.Wall.Round(time.Millisecond), rep.SolverTime.Round(time.Millisecond), rep.Steps, rep.Status)
